@@ -22,7 +22,7 @@ type PageCache struct {
 
 	// observation counters
 	InvDB, InvRange, InvSHM, InvPos, InvEntry int
-	Fills, Hits                             int
+	Fills, Hits                               int
 }
 
 type cachedFile struct {
